@@ -16,7 +16,8 @@ package pex
 //   - ensurePeersRoutine / crawlPeersRoutine (spawned by OnStart): WRAPPED — the reactor is not
 //     started through OnStart; after the input the harness runs one iteration of the routine's
 //     body under recover: ensurePeers(), or crawlPeers(book.GetSelection()) + attemptDisconnects()
-//     + cleanupCrawlPeerInfos() in seed mode.  addrBook.saveRoutine (spawned by book.Start): its
+//     + cleanupCrawlPeerInfos() in seed mode (the crawler dials sequentially, each dial bounded by
+//     the transport's 1 s timeout, so only the first 3 addresses of the selection are crawled).  addrBook.saveRoutine (spawned by book.Start): its
 //     body saveToFile() is run under recover, and the file is loaded back into a new book
 //     (a restart).
 //   - the anonymous dial goroutines (ensurePeers, ReceiveAddrs for seeds) and the seed-mode
@@ -388,10 +389,10 @@ func c17Drive(t *testing.T, testName, casesName string, reactorNo uint64, n int,
 // ------------------------------------------------------------------ pex specifics
 
 type c17PexState struct {
-	seed, outbound      bool
-	known               int // 0 unknown, 1 added, 2 removed
-	solicited           bool
-	priorReq            int
+	seed, outbound       bool
+	known                int // 0 unknown, 1 added, 2 removed
+	solicited            bool
+	priorReq             int
 	strict, senderIsSeed bool
 }
 
